@@ -43,9 +43,9 @@ use dashu_int::{IBig, UBig, Word};
 use dashu_ratio::{RBig, Relaxed};
 use dv::fl::{bpow, ModeTag, Sci};
 use dv::gen;
+use dv::nb::NbInt;
 use dv::*;
 use num_bigint::{BigInt, BigUint};
-use num_integer::Integer;
 use num_traits::{Signed as NSigned, ToPrimitive, Zero};
 use proptest::prelude::*;
 use serde::{Deserialize, Serialize};
@@ -3050,7 +3050,24 @@ const RATIO_STRINGS: &[&str] = &[
 
 fn long_strings(k: SK) -> Vec<String> {
     match k {
-        SK::Int => vec!["9".repeat(10_000), format!("1{}", "_".repeat(1000)), "0".repeat(5000), format!("-{}", "f".repeat(4000)), "é".repeat(300), format!("{}x", "1".repeat(300))],
+        SK::Int => vec![
+            "9".repeat(10_000),
+            format!("1{}", "_".repeat(1000)),
+            "0".repeat(5000),
+            format!("-{}", "f".repeat(4000)),
+            "é".repeat(300),
+            format!("{}x", "1".repeat(300)),
+            // digit counts on both sides of the chunk sizes of the divide-and-conquer parser
+            // (chunk = 256 words' worth of digits, doubled at every level)
+            "7".repeat(4864),
+            "7".repeat(4865),
+            "3".repeat(9728),
+            "3".repeat(9729),
+            "3".repeat(9730),
+            "1".repeat(19457),
+            "2".repeat(20481),
+            "2".repeat(38913),
+        ],
         SK::Float => vec![
             format!("1.{}", "9".repeat(10_000)),
             format!("{}.5", "1".repeat(5000)),
